@@ -191,9 +191,29 @@ def call_guarded(f):
     import signal
     import threading
     if threading.current_thread() is not threading.main_thread():
-        # served on a worker thread (tools/check.py does that for every 4th case): signals belong to the main
-        # thread, whose own alarm in check.py covers a hang here
-        return True, f()
+        # served on a worker thread (tools/check.py does that for every 4th case): signals belong to the main thread
+        # and a thread cannot be killed, so a Python-level endless loop is ended from inside by a trace function with
+        # a deadline (a C-level one — a regex backtracking for ever — is handled by running that case family in a
+        # child process, see C12._in_child)
+        import sys
+        import time
+        limit = HANG_FAST * 4 if _HANGS['n'] >= HANG_K else HANG_LIMIT * 2
+        deadline = time.monotonic() + limit
+        ticks = [0]
+
+        def tracer(frame, event, arg):
+            ticks[0] += 1
+            if ticks[0] & 0xff == 0 and time.monotonic() > deadline:
+                raise Hang()
+            return tracer
+        sys.settrace(tracer)
+        try:
+            return True, f()
+        except Hang:
+            _HANGS['n'] += 1
+            return False, None
+        finally:
+            sys.settrace(None)
     limit = HANG_FAST if _HANGS['n'] >= HANG_K else HANG_LIMIT
     old = signal.signal(signal.SIGALRM, _on_alarm)
     signal.setitimer(signal.ITIMER_REAL, limit)
